@@ -321,12 +321,12 @@ class Enforcer(ManagementEnforcer):
 
         for rule in self.get_policy():
             if rule[object_index] == resource:
+                if domain != rule[dom_index]:
+                    continue
                 sub = rule[subject_index]
                 if sub not in roles:
                     permissions[tuple(rule)] = True
                 else:
-                    if domain != rule[dom_index]:
-                        continue
                     users = rm.get_users(sub, domain)
                     for user in users:
                         implicit_rule = rule.copy()
